@@ -24,6 +24,7 @@ type Step struct {
 	Pend int    `json:"pend"`
 	Nw   int    `json:"nw"`  // predicted number of frames put on the wire by the step
 	Err  string `json:"err"` // predicted result of the last completion in the step ("parked": none)
+	N    int    `json:"n"`   // real-socket scenarios: payload length of a submitted message / repeat count
 }
 
 type opts struct {
@@ -62,6 +63,9 @@ type session struct {
 	buf    []byte
 	o      opts
 	sid    int
+	open   map[int]string  // calls in flight (driver's ledger)
+	feed   func(rdItem)    // makes peer output available to the client
+	wlenOf func(t int) int // length of submitted payloads (nil: small)
 }
 
 var sharedIO *sonic.IO
@@ -80,6 +84,7 @@ func newSession(log *Log, deferred bool, o opts, sid int) (*session, error) {
 	}
 	s := &session{ws: ws, log: log, o: o, sid: sid, buf: make([]byte, 1<<16)}
 	s.tp = NewScript(log, deferred, o.split)
+	s.feed = s.tp.Feed
 	if err := ws.VerifAttach(s.tp); err != nil {
 		return nil, err
 	}
@@ -151,17 +156,17 @@ func (s *session) peer(step int, k string, t int) {
 		}
 	case "eof":
 		s.log.Peer(k, t, 0)
-		s.tp.Feed(rdItem{eof: true})
+		s.feed(rdItem{eof: true})
 		return
 	case "err":
 		s.log.Peer(k, t, 0)
-		s.tp.Feed(rdItem{err: true})
+		s.feed(rdItem{err: true})
 		return
 	default:
 		panic("unknown peer event " + k)
 	}
 	s.log.Peer(k, t, c)
-	s.tp.Feed(rdItem{data: b})
+	s.feed(rdItem{data: b})
 }
 
 // ---- what reads surface ------------------------------------------------------
@@ -207,10 +212,29 @@ var closeReasons = map[int]string{1000: "", 1001: "going away", 4000: "app"}
 
 // ---- local calls -------------------------------------------------------------
 
+// admissible: the schedule generator keeps one read and one write-side call
+// in flight at a time; if the code under test is slower than the model
+// predicted (drift), a call that would break that assumption is skipped.
+func (s *session) admissible(api string) bool {
+	rd := api == "AsyncNextFrame" || api == "AsyncNextMessage" || api == "NextFrame" || api == "NextMessage"
+	for _, a := range s.open {
+		ard := a == "AsyncNextFrame" || a == "AsyncNextMessage"
+		if rd == ard {
+			return false
+		}
+	}
+	return true
+}
+
 func (s *session) call(api string, t, c int) {
 	s.nextID++
 	id := s.nextID
-	ws, log := s.ws, s.log
+	ws := s.ws
+	if s.open == nil {
+		s.open = map[int]string{}
+	}
+	s.open[id] = api
+	log := &doneTracker{Log: s.log, s: s}
 	if api == "Close" || api == "AsyncClose" {
 		if c == 0 {
 			c = 1000
@@ -269,8 +293,24 @@ func (s *session) call(api string, t, c int) {
 	}
 }
 
+// doneTracker keeps the driver's ledger of calls in flight.
+type doneTracker struct {
+	*Log
+	s *session
+}
+
+func (d *doneTracker) Done(api string, id int, err error) {
+	delete(d.s.open, id)
+	d.Log.Done(api, id, err)
+}
+
 // wlen: length of a submitted payload (overridden by the C17 drivers)
-func (s *session) wlen(t int) int { return plen(t) }
+func (s *session) wlen(t int) int {
+	if s.wlenOf != nil {
+		return s.wlenOf(t)
+	}
+	return plen(t)
+}
 
 func (s *session) sample() { s.log.Sample(s.ws.State().String(), s.ws.Pending()) }
 
@@ -326,6 +366,115 @@ func RunInline(a tr.Args) error {
 		s.tp.Finish()
 		log.End("drained")
 		if log.nontrivial {
+			sum.Nontrivial++
+		}
+		return nil
+	})
+	if err != nil {
+		return err
+	}
+	sum.Events = w.N
+	if err := w.Close(); err != nil {
+		return err
+	}
+	sum.Print()
+	return nil
+}
+
+// ---- replay with deferred transport completions (C17, driver 1) ---------------
+
+func (s *session) drainEnv() error {
+	for i := 0; i < 10000; i++ {
+		switch {
+		case s.tp.WriteParked():
+			s.log.Env("writable")
+			s.tp.Writable(0)
+		case s.tp.CanDeliverRead():
+			s.log.Env("readable")
+			s.tp.Readable()
+		default:
+			return nil
+		}
+		s.sample()
+	}
+	return fmt.Errorf("scenario %d: the scripted transport did not come to rest", s.sid)
+}
+
+func RunDeferred(a tr.Args) error {
+	w, err := tr.NewWriter(a.Out)
+	if err != nil {
+		return err
+	}
+	o := parseMode(a.Mode, a.Seed)
+	sum := tr.Summary{Component: "wssession-deferred"}
+	log := &Log{w: w}
+	err = tr.Behaviours(a.In, func(idx int, raw json.RawMessage) error {
+		var steps []Step
+		if err := json.Unmarshal(raw, &steps); err != nil {
+			return err
+		}
+		sum.Scenarios++
+		log.begin(idx)
+		s, err := newSession(log, true, o, idx)
+		if err != nil {
+			return err
+		}
+		overlap := false
+		for i, g := range steps {
+			log.stepBegin()
+			switch g.Op {
+			case "peer":
+				s.peer(i, g.K, g.T)
+			case "call":
+				c := g.C
+				if g.Api == "AsyncClose" {
+					c = []int{1000, 1001, 4000}[s.pick(i, 3)]
+				}
+				if !s.admissible(g.Api) {
+					log.stepErr = "skipped"
+					break
+				}
+				if s.tp.WriteParked() {
+					overlap = true
+				}
+				s.call(g.Api, g.T, c)
+			case "env":
+				log.Env(g.K)
+				ok := false
+				if g.K == "writable" {
+					ok = s.tp.WritableUnits(g.T)
+				} else {
+					ok = s.tp.Readable()
+				}
+				if !ok {
+					log.stepErr = "not-enabled"
+				}
+			default:
+				return fmt.Errorf("unknown step %q", g.Op)
+			}
+			s.sample()
+			st, pend := s.ws.State().String(), s.ws.Pending()
+			if st != g.St || pend != g.Pend || log.stepWire != g.Nw || log.stepErr != g.Err {
+				sum.Drift++
+				if sum.FirstDrift == nil {
+					sum.FirstDrift = map[string]any{"sid": idx, "step": i + 1, "predicted": g,
+						"observed": map[string]any{"st": st, "pend": pend, "nw": log.stepWire, "err": log.stepErr}}
+				}
+			}
+		}
+		// end of scenario: run the loop until nothing is left to deliver,
+		// flush once more, run the loop again
+		if err := s.drainEnv(); err != nil {
+			return err
+		}
+		s.call("AsyncFlush", 0, 0)
+		s.sample()
+		if err := s.drainEnv(); err != nil {
+			return err
+		}
+		s.tp.Finish()
+		log.End("drained")
+		if overlap {
 			sum.Nontrivial++
 		}
 		return nil
